@@ -220,16 +220,42 @@ def r2_marker_length(ctx, rep):
             cut = app and cutl
     rep.ob("reader: plain doc comment is cut at the marker position", bool(cut), "", py.nloc(fn))
     # alternate-block state resets: `reading_alt` back to 0 on a blank line (or a non-comment line)
-    def blank_test(c: str) -> bool:
-        return re.search(r"len\(line\.strip\(\)\) == 0|not line\.strip\(\)|line\.strip\(\) == ''", c) is not None
+    def line_atom(x):
+        """'blank' (nothing but white space on the line) / 'bang' (its first visible character is `!`), however spelled and
+        through locals bound once (`stripped = line.strip()`)"""
+        if not isinstance(x, (ast.Compare, ast.Call, ast.Name, ast.Attribute)):
+            return None
+        alts = astq.alternatives(x, fn)
+        y = alts[0][0] if len(alts) == 1 else x
+        t = ast.unparse(y)
+        if t in ("line.strip()", "line.lstrip()", "len(line.strip())", "len(line.lstrip())"):
+            return ("blank", False)
+        m = re.fullmatch(r"len\(line\.l?strip\(\)\) (==|!=|>|<) (0|1)", t)
+        if m:
+            return ("blank", {("==", "0"): True, ("!=", "0"): False, (">", "0"): False, ("<", "1"): True}.get((m.group(1), m.group(2)), True))
+        m = re.fullmatch(r"line\.l?strip\(\) (==|!=) ''", t)
+        if m:
+            return ("blank", m.group(1) == "==")
+        m = re.fullmatch(r"line\.l?strip\(\)(?:\[0\]|\[:1\]|\[0:1\]) (==|!=) '!'", t)
+        if m:
+            return ("bang", m.group(1) == "==")
+        if re.fullmatch(r"line\.l?strip\(\)\.startswith\('!'\)", t):
+            return ("bang", True)
+        return None
     resets = [e for e in ev if e.kind == "assign" and e.target == "self.reading_alt" and ast.unparse(e.value) == "0"]
-    ok = any(any(blank_test(c) and not c.startswith("not (") for c in e.cond_texts()) for e in resets)
+    # on a blank line (whose first visible character is then not `!`) some reset runs
+    # (other conditions - pending statements, open literals - leave the verdict open, hence `is not False`; an event that does
+    # not depend on the shape of the line at all is not the reset that is looked for)
+    ok = any(astq.event_fires(e, line_atom, {"blank": True, "bang": False}) is not False and
+             astq.event_fires(e, line_atom, {"blank": False, "bang": True}) is False for e in resets)
     rep.ob("reader: a blank line ends an alternate (block) doc comment", ok,
            "`reading_alt` is reset on a blank line or a non-comment line" if ok else
            "`reading_alt` is no longer reset by a blank line: ordinary `!` comments after a `!*` block and a blank "
            "line are promoted to documentation of the previous entity", py.nloc(resets[0].node) if resets else py.nloc(fn))
     resets2 = [e for e in ev if e.kind == "assign" and e.target == "reading_predoc_alt" and ast.unparse(e.value) == "0"]
-    ok = any(any(re.search(r"!= '!'|not .*startswith\('!'\)", c) for c in e.cond_texts()) for e in resets2)
+    # on a line of code (not blank, not a comment) the preceding-block state is reset
+    ok = any(astq.event_fires(e, line_atom, {"blank": False, "bang": False}) is not False and
+             astq.event_fires(e, line_atom, {"blank": False, "bang": True}) is False for e in resets2)
     rep.ob("reader: code ends an alternate preceding block", ok, "", py.nloc(resets2[0].node) if resets2 else py.nloc(fn))
     # GenericSource uses remove_prefixes
     gs = py.func("GenericSource.parse_file")
@@ -541,6 +567,63 @@ def r8_summary_needs_a_page(ctx, rep):
         raise AnalysisError(f"only {n} doc-or-summary choices found in the templates")
 
 
+def r9_own_members_kept(ctx, rep):
+    """The members of an entity that carry documentation (its child lists, dummy arguments, result variable) are built from the
+    entity's own source text, each with the comment that follows *its* declaration.  Where a later phase hands one entity the
+    member objects of another (`proc.args = base.args`), the receiver must be of a kind that has no members of its own - a class
+    whose construction sets that attribute to an empty constant - otherwise the comments written in its source are dropped and
+    those of the other entity are shown in their place."""
+    py = ctx.py
+    from ..tables import children_lists
+    lists, singles = children_lists(py)
+    bearing = set(lists) | set(singles) | {"args", "retvar"}
+    n = 0
+    for mod, fn in py.all_functions():
+        if mod != "sourceform" or fn.name == "__init__":
+            continue
+        parents = astq.parents_of(fn)
+        for a in ast.walk(fn):
+            if not (isinstance(a, ast.Assign) and len(a.targets) == 1 and isinstance(a.targets[0], ast.Attribute)
+                    and isinstance(a.value, ast.Attribute) and a.targets[0].attr == a.value.attr and a.value.attr in bearing):
+                continue
+            recv, giver = ast.unparse(a.targets[0].value), ast.unparse(a.value.value)
+            if recv == giver or py.enclosing_function(a) is not fn:
+                continue
+            n += 1
+            attr = a.value.attr
+            # the kinds the receiver is known to be on this path (nested test or early exit alike)
+            ev = next((e for e in astq.trace(fn) if e.kind == "assign" and e.node is a), None)
+            kinds = []
+            tests = {ast.unparse(c): c for t, _p, _s in (ev.conds if ev else []) for c in ast.walk(t)
+                     if isinstance(c, ast.Call) and call_name(c) == "isinstance" and len(c.args) == 2 and ast.unparse(c.args[0]) == recv}
+            for txt, c in tests.items():
+                def atom(x, txt=txt):
+                    return ("is", True) if isinstance(x, ast.Call) and ast.unparse(x) == txt else None
+                if astq.path_implies(ev, atom, {"is": True}) is True:
+                    ks = c.args[1].elts if isinstance(c.args[1], ast.Tuple) else [c.args[1]]
+                    kinds += [ast.unparse(k) for k in ks]
+
+            def empty_by_construction(k: str) -> bool:
+                for meth in ("_initialize", "__init__"):
+                    r = py.resolve_method(k, meth) if k in py.classes else None
+                    if r is None:
+                        continue
+                    vals = [v for _t, v in astq.assignments(r[1], f"self.{attr}") if v is not None]
+                    if vals and all((isinstance(v, (ast.List, ast.Tuple, ast.Dict)) and not getattr(v, "elts", getattr(v, "keys", None)))
+                                    or (isinstance(v, ast.Constant) and v.value is None) for v in vals):
+                        return True
+                return False
+            ok = bool(kinds) and all(empty_by_construction(k) for k in kinds)
+            rep.ob(f"{py.qualname(fn)}: `{ast.unparse(a)}`", ok,
+                   f"only for {kinds}, which have no `{attr}` of their own" if ok else
+                   f"`{recv}` receives the `{attr}` objects of `{giver}` " +
+                   (f"also when it is one of {kinds}, whose own `{attr}` come from its source" if kinds else
+                    "whatever its kind: an entity that declares its own members loses them") +
+                   " - the comments written after its declarations are dropped and the other entity's are shown instead", py.nloc(a))
+    if n == 0:
+        raise AnalysisError("no hand-over of documented members between entities found (FortranCodeUnit.correlate: proc.args = base.args)")
+
+
 RULES = [
     RuleSpec("C03.R1", r1_one_docstring_read, "one docstring read and one registration per declaration", floor=8),
     RuleSpec("C03.R2", r2_marker_length, "marker-length agreement between sibling implementations", floor=4),
@@ -549,5 +632,6 @@ RULES = [
     RuleSpec("C03.R5", r5_index_after_delete, "no list index reused after deletion (admonitions)", floor=1),
     RuleSpec("C03.R6", r6_shared_values_copied, "per-statement values are copied per variable", floor=1),
     RuleSpec("C03.R7", r7_meta_key_guard, "metadata continuation needs an open key", floor=1),
+    RuleSpec("C03.R9", r9_own_members_kept, "an entity keeps the documented members parsed from its own source", floor=2),
     RuleSpec("C03.R8", r8_summary_needs_a_page, "a summary replaces the full text only where the entity has a page", floor=10),
 ]
